@@ -8,6 +8,7 @@ A *library spec* is a JSON-able list of block specs from which real bibtexparser
     ["failed", abort_class, line, raw]   ["dupfield", [keys], ENTRY]     ["mwerror", "invalidName", LIVE]
 
     VAL ::= "text" | 12 | {"big": [k, d]}   (the int 10**k + d, never written in decimal in a case)
+          | {"negbig": [k, d]}              (the int -(10**k + d))
           | {"rep": [text, n]}              (text * n)
           | {"names": [..]} | {"py": "None" | "float" | "True" | "False" | "bytes"}
 
@@ -66,6 +67,9 @@ def val(spec):
         if "big" in spec:
             k, d = spec["big"]
             return 10 ** k + d
+        if "negbig" in spec:
+            k, d = spec["negbig"]
+            return -(10 ** k + d)
         if "rep" in spec:
             s, n = spec["rep"]
             return s * n
